@@ -343,6 +343,8 @@ defvjp(anp.gradient, grad_gradient)
 
 def grad_repeat(ans, x, repeats, axis=None):
     shape = anp.shape(x)
+    if axis is not None and axis < 0:
+        axis = axis + len(shape)
 
     def vjp(g):
         if axis is None:  # If axis is none, np.repeat() repeats the flattened array.
